@@ -9,6 +9,7 @@ class Prop:
     pid = "C12"
     vo_check = ["theories/Pipeline/Check.vo"]
     vo_props = ["theories/Props/C12.vo"]
+    hook_files = ["device/verif_c12.go (VerifPrepareRacingBatch / Enqueue: a batch behind the stop sentinel with a gated worker)"]
     k_names = ["trace(per peer: TUN-write order == datagram arrival order; datagram order == TUN-read order with strictly "
                "increasing counters == Nonce.Seq.number; emitted multiset == submitted multiset at quiescence; every emitted "
                "datagram opens under the session key with its inner packet intact)"]
@@ -19,7 +20,10 @@ class Prop:
             "peers while down / Up before the sessions, every 6th run removes one of 2-3 peers (UAPI remove=true) in the middle of a flood "
             "of 1300..1400-byte packets at GOMAXPROCS 2 (the removed peer's lanes only have to be prefixes), every 2nd run interleaves forged "
             "datagrams (live receiver index, bad tag; one in 4/10/40) into the inbound flood, one dedicated run per check returns 12 isolated "
-            "temporary receive errors (own conn.Bind wrapper) each followed by a batch that must arrive (about 4.5 s, run concurrently); non-trivial = quiescent run with at least 500 "
+            "temporary receive errors (own conn.Bind wrapper) each followed by a batch that must arrive (about 4.5 s, run concurrently), every 6th run "
+            "has 3-6 extra flusher goroutines (keepalives, UAPI sets) on 1-3 Ps with 8000 one-packet containers (judged as multisets), every 6th run "
+            "takes the interface down and up 4-9 times during a flood (at most once, processed), one dedicated run restarts a peer while a gated "
+            "worker holds a batch behind the stop sentinel (hook); non-trivial = quiescent run with at least 500 "
             "packets emitted in each direction; distinct by configuration hash")
     assumptions = ["Go channels are FIFO queues, sync.Mutex Lock/Unlock and goroutine scheduling are those of the transition system "
                    "Pipeline/Model.v (sequentially consistent atomic steps); the theorems are about that system",
@@ -56,6 +60,9 @@ class Prop:
             "runs_with_forged_datagrams": sum(1 for c in cases if c["cfg"].get("forged_one_in")),
             "forged_datagrams_injected": sum(c["info"].get("forged", 0) for c in cases),
             "runs_with_isolated_receive_errors": sum(1 for c in cases if c["cfg"].get("recv_errs")),
+            "runs_with_several_flushers": sum(1 for c in cases if c["cfg"].get("flushers")),
+            "runs_with_down_up_during_flood": sum(1 for c in cases if c["cfg"].get("down_up_cycles")),
+            "runs_restart_race_hook": sum(1 for c in cases if c["cfg"].get("restart_race")),
             "runs_crashed": sum(1 for c in cases if c["info"].get("crash")),
             "datagrams_sent": sum(c["info"].get("datagrams", 0) for c in cases),
             "packets_written": sum(c["info"].get("written", 0) for c in cases),
@@ -93,6 +100,7 @@ class Prop:
         self.last_rerun = meta["cases"]
         for c, r in zip(cases, meta["cases"]):
             c["out"], c["in"], c["quiet"], c["info"], c["removed"] = r["out"], r["in"], r["quiet"], r["info"], r.get("removed", -1)
+            c["mode"] = r.get("mode", "")
         return self._fails(meta["shards"], files, outs)
 
     def shrink_candidates(self, case):
@@ -110,8 +118,14 @@ class Prop:
     def signature(self, case, f):
         if (case.get("info") or {}).get("crash"):
             return "device-crashed-or-hung-during-run"
-        if (case.get("info") or {}).get("error"):
+        info = case.get("info") or {}
+        if info.get("error"):
             return "pipeline-could-not-be-set-up"
+        if info.get("cycles_hung") or info.get("flushers_hung") or info.get("remove_hung"):
+            return "device-crashed-or-hung-during-run"
+        if info.get("restart_returned_while_worker_held_batch"):
+            return "restart-released-batch-still-held-by-worker"
+        mode = case.get("mode") or ""
         sig = []
         rm = case.get("removed", -1)
         for li, l in enumerate(case.get("out") or []):
@@ -121,11 +135,11 @@ class Prop:
                 sig.append("outbound-unprocessed-or-foreign-datagram")
             if len(set(seqs)) != len(seqs):
                 sig.append("outbound-duplicate")
-            elif case.get("quiet") and len(seqs) < l["n"] and li != rm:
+            elif case.get("quiet") and len(seqs) < l["n"] and li != rm and mode != "atmost":
                 sig.append("outbound-lost")
-            if seqs != sorted(seqs):
+            if seqs != sorted(seqs) and not mode:
                 sig.append("outbound-reordered")
-            if any(a >= b for a, b in zip(ctrs, ctrs[1:])):
+            if any(a >= b for a, b in zip(ctrs, ctrs[1:])) and not mode:
                 sig.append("outbound-counters-not-increasing")
         for li, l in enumerate(case.get("in") or []):
             seqs = [s + i for (s, n) in (l.get("wr") or []) for i in range(n)]
